@@ -198,6 +198,11 @@ def seq_enumerated():
         else:
             T('string-index-%s-%s' % (sn, xn), pre + " write(%s[%s]); write('.');" % (se, xe),
               extra="string gs3 = \"mno\";\nstring gks = \"021\";\nconst string[] cnames = [\"ghi\", \"jkl\"];\nint idx(int v) { return v % 3; }\nstring pick(const string[] a, int v) { return a[v % 2]; }\n")
+    # constant bool tables whose packed bytes coincide although their lengths differ (global and local), and 0/1 byte tables beside them
+    T('packed-bool-tables', "sleep(a3.length); sleep(a5.length); sleep(b9.length); sleep(b16.length); sleep(a5[i % 5] is int); sleep(a3[i % 3] is int); sleep(b16[i % 16] is int); sleep(b9[i % 9] is int); "
+      "const bool[] l3 = [false, true, true]; const bool[] l6 = [false, true, true, false, false, false]; sleep(l3.length + l6.length * 10); sleep(l6[i % 6] is int); const byte[] d3 = [0, 1, 1]; write(d3[i % 3]); sleep(l3[i % 3] is int);",
+      sig='byte i', extra="const bool[] a3 = [true, false, true];\nconst bool[] a5 = [true, false, true, false, false];\nconst bool[] b9 = [true, true, false, false, true, false, false, false, true];\n"
+      "const bool[] b16 = [true, true, false, false, true, false, false, false, true, false, false, false, false, false, false, false];\n")
     return out
 
 
